@@ -20,6 +20,7 @@ func main() {
 	flag.StringVar(&cfg.proofFile, "proof", "", "proof status json written by ./check")
 	flag.StringVar(&cfg.corpusDir, "corpus", "/verif/go/corpus", "corpus directory")
 	flag.StringVar(&replayFile, "replay", "", "replay file to re-run")
+	oneCase := flag.String("case", "", "internal: run Impl on one case line and print the answer")
 	isoChildArg := flag.String("isochild", "", "internal: C20 child process")
 	flag.Parse()
 	if *isoChildArg != "" {
@@ -27,6 +28,15 @@ func main() {
 		return
 	}
 
+	if *oneCase != "" {
+		os.Setenv("VERIF_CHILD", "1")
+		p := registry[cfg.prop]
+		if p == nil {
+			os.Exit(2)
+		}
+		fmt.Println(safeImpl(p, *oneCase))
+		return
+	}
 	if replayFile != "" {
 		os.Exit(doReplay(cfg, replayFile))
 	}
